@@ -172,6 +172,7 @@ class Sim:
         self.beh = scenario.get("beh", {})
         self.gv = scenario.get("gv", {})
         self.gv_kind = scenario.get("gv_kind", {})
+        self.on_snapshot = None  # set by the runner: a callback snapshots its own model (and machine)
         self.sidx = scenario.get("sidx", {})  # cbid-prefix (program name) -> {value-key: state index}
         self.jc = {}
         self.machines = {}
@@ -403,6 +404,8 @@ class Sim:
             if rule is not None:
                 if rule.get("attach"):
                     self._attach_blank(self._machine(tag, obj, loc))
+                if rule.get("snapshot") and self.on_snapshot is not None:
+                    self.on_snapshot(tag, rule["snapshot"])
                 if rule.get("write") is not None:
                     self._write_model(tag, rule["write"])
                 sends = rule.get("sends")
@@ -505,6 +508,8 @@ class Sim:
             if rule is not None:
                 if rule.get("attach"):
                     self._attach_blank(self._machine(tag, obj, loc))
+                if rule.get("snapshot") and self.on_snapshot is not None:
+                    self.on_snapshot(tag, rule["snapshot"])
                 pre = rule.get("pre")
                 if pre is not None:
                     self.stats["delays"] += 1
